@@ -635,6 +635,7 @@ def setLc (o : O14) (slot n : Nat) : O14 :=
   { o with lc := (List.range (max o.lc.length (slot + 1))).map fun i => if i = slot then n else o.lc.getD i 0 }
 
 def lcStep (st : Nat) (ev : String) : Option Nat :=
+  -- 0 offline, 1 online, 2 configured (data exchange not yet confirmed), 3 running (a DataExchanged event was reported)
   match st, ev with
   | 0, "Online" => some 1
   | 1, "Configured" => some 2
@@ -642,11 +643,17 @@ def lcStep (st : Nat) (ev : String) : Option Nat :=
   | 1, "ParameterError" => some 0
   | 1, "ConfigError" => some 0
   | 2, "Configured" => some 2
-  | 2, "DataExchanged" => some 2
+  | 2, "DataExchanged" => some 3
   | 2, "Diagnostics" => some 2
   | 2, "Offline" => some 0
   | 2, "ParameterError" => some 0
   | 2, "ConfigError" => some 0
+  | 3, "Configured" => some 2
+  | 3, "DataExchanged" => some 3
+  | 3, "Diagnostics" => some 3
+  | 3, "Offline" => some 0
+  | 3, "ParameterError" => some 0
+  | 3, "ConfigError" => some 0
   | _, _ => none
 
 def wantGc (c : OCfg) : Header :=
@@ -701,7 +708,7 @@ def oracle14 (b b' : Base) (seen : Seen) (views : List PView) (o : O14) : O14 ×
     if !b.collected then
       -- events may have been overwritten: only resynchronise
       let lc' := (List.range c.ps.length).map fun i =>
-        if liveOf views i then (if (viewOf views i).map (·.running) == some true then 2 else max 1 (lcOf o i)) else 0
+        if liveOf views i then (if (viewOf views i).map (·.running) == some true then 3 else max 1 (min 2 (lcOf o i))) else 0
       ({ o with pos := none, visited := [], lc := lc', idle := [] }, none)
     else
     -- the event
@@ -717,9 +724,11 @@ def oracle14 (b b' : Base) (seen : Seen) (views : List PView) (o : O14) : O14 ×
     | (o1, some v) => (o1, some v)
     | (o1, none) =>
     -- life-cycle state against is_live / is_running
-    match views.find? (fun v => (lcOf o1 v.slot == 0) == v.live || (v.running && lcOf o1 v.slot != 2)) with
+    -- a peripheral may stop running without an event (it is re-validated after "SAP not enabled"): 3 falls back to 2
+    let o1 := views.foldl (fun (o : O14) v => if !v.running && lcOf o v.slot == 3 then setLc o v.slot 2 else o) o1
+    match views.find? (fun v => (lcOf o1 v.slot == 0) == v.live || (v.running && lcOf o1 v.slot != 3)) with
     | some v =>
-      fail (setLc o1 v.slot (if v.live then (if v.running then 2 else 1) else 0))
+      fail (setLc o1 v.slot (if v.live then (if v.running then 3 else 1) else 0))
         s!"lifecycle / events_exact: slot {v.slot} is_live={dpB01 v.live} is_running={dpB01 v.running} but its events say state {lcOf o1 v.slot} (an event was lost or duplicated)"
     | none =>
     if cc then
